@@ -72,6 +72,10 @@ type Job struct {
 	// bound; if it does not, a counterexample with this label and the followed
 	// inputs is reported (the native replay confirms it by timing out)
 	Terminates string `json:"terminates,omitempty"`
+	// Bounded: every VerifFinite input is zero or of a magnitude in [2^-100, 2^100]
+	// (float32: [2^-30, 2^30]), so that no intermediate of a single operation
+	// overflows or underflows; stated as part of the claim
+	Bounded bool `json:"bounded,omitempty"`
 }
 
 type Obligation struct {
